@@ -121,15 +121,27 @@ def mc_task(logic, n, ftxts, opts=None):
             fstr0 = str(f)
             if fold:
                 start_lemma_log(SEED)
+            nfair = opts.get('fair')
+            fair_names = ['f%d' % k for k in range(nfair)] if nfair is not None else []
+            extra = ['%s_%d' % (fn_, i) for fn_ in fair_names for i in range(n)] if not opts.get('fair_const') else []
             h = sym_kripke(n, aps=aps, mods=LOGIC_MODS[logic], fold=fold, care_total=True, fixed=fixed, perm=perm,
-                           bounds=bounds_for(n, logic), states=states, label_pool=lab_pool)
+                           bounds=bounds_for(n, logic), states=states, label_pool=lab_pool, extra=extra)
             if h is None:
                 rec.update(verdict='unsat', skipped='no total structure on this fork', queries=0, solver_s=0, gates=0)
                 out.append(rec)
                 continue
             st = h.states
             snap = snapshot(h.K)
-            res = h.ctx.call(mcmod.modelcheck, [h.K, f], {})
+            kw = {}
+            if nfair is not None:
+                Fl = []
+                for fn_ in fair_names:
+                    P = MSet()
+                    for i in range(n):
+                        P.put(st[i], True if opts.get('fair_const') else var('%s_%d' % (fn_, i)))
+                    Fl.append(P)
+                kw['F'] = MList(Fl)
+            res = h.ctx.call(mcmod.modelcheck, [h.K, f], kw)
             resv = vec(res, st)
             bad_exact = [extra_keys(res, st)]
             excg = exc_guard(h.fr)
@@ -155,7 +167,7 @@ def mc_task(logic, n, ftxts, opts=None):
             care = total_text(n, fixed=fixed)
             depths = None
             if logic != 'CTL' or opts.get('ctls_oracle'):
-                depths = oracle_depths(f, n, aps, fixed)
+                depths = oracle_depths(f, n, aps, fixed, fair_names if nfair is not None else None, const=bool(opts.get('fair_const')))
             d = Decider(care, timeout_ms=opts.get('timeout_ms', 300000), record=bool(opts.get('cross')))
             T2, lab2 = matrix(n, fixed=fixed), labels(n, aps, fixed=fixed)
             if logic == 'CTL' and not opts.get('ctls_oracle'):
@@ -165,7 +177,14 @@ def mc_task(logic, n, ftxts, opts=None):
             else:
                 dp = oracles.Depths('fixed', inner=depths.max_inner, outer=depths.max_outer)
                 ost = []
-                want = oracles.ctls(f, T2, lab2, n, depths=dp, stats=ost)
+                fair2 = [[True if opts.get('fair_const') else var('%s_%d' % (fn_, i)) for i in range(n)] for fn_ in fair_names] if nfair is not None else None
+                want = oracles.ctls(f, T2, lab2, n, fair=fair2, depths=dp, stats=ost)
+                if nfair is not None and opts.get('assume_all_fair'):
+                    d.assume(b_and(*oracles.fair_states(T2, n, fair2, oracles.Depths('fixed', inner=depths.max_inner, outer=depths.max_outer))))
+                    rec['assumed2'] = 'outside known-finding class D10 (every state starts a fair path)'
+                if nfair is not None and opts.get('outside_d7', True):
+                    d.assume(b_not(d7_class(T2, fair2, n)))
+                    rec['assumed'] = 'outside known-finding class D7 (a fair SCC that is a single state or has a state without self-loop)'
                 stable = dp.unstable
                 rec['oracle'] = dict(kind='product + Emerson-Lei', inner_unrollings=depths.max_inner, outer_unrollings=depths.max_outer,
                                      products=ost)
@@ -206,23 +225,38 @@ def mc_task(logic, n, ftxts, opts=None):
     return out
 
 
-def oracle_depths(f, n, aps, fixed, fair_names=()):
+def oracle_depths(f, n, aps, fixed, fair_names=None, const=False):
     """number of unrollings the product fixpoints need, found with functional reduction on (not trusted: the raw oracle
     is emitted with these depths and the solver proves that one more unrolling changes nothing)"""
     from .harness import tnames, lnames, total_of
     was_on = TT['on']
     if not was_on:
-        names = [x for x in tnames(n) + lnames(n, aps) + list(fair_names) if x not in fixed]
+        names = [x for x in tnames(n) + lnames(n, aps) + ([] if const else ['%s_%d' % (fn_, i) for fn_ in (fair_names or ()) for i in range(n)]) if x not in fixed]
         see.enable_tt(names)
         care = total_of(matrix(n, fixed=fixed), n)
         see.restrict_care(care)
     dp = oracles.Depths('stable')
     T, lab = matrix(n, fixed=fixed), labels(n, aps, fixed=fixed)
-    fair = [[var('%s_%d' % (nm, i)) for i in range(n)] for nm in fair_names] if fair_names else None
+    fair = [[True if const else var('%s_%d' % (nm, i)) for i in range(n)] for nm in fair_names] if fair_names is not None else None
     oracles.ctls(f, T, lab, n, fair=fair, depths=dp)
     if not was_on:
         see.tt_off()
     return dp
+
+
+def d7_class(T, fair, n):
+    """known-finding class D7 (kripke.py::get_fair_states/is_a_fair_SCC): some non-trivial SCC that meets every
+    fairness set is a single state, or contains a state without a self-loop.  Outside this class the implementation's
+    acceptance test agrees with the definition."""
+    reach = oracles.closure(T, n)
+    plus = oracles.closure_plus(T, n)
+    out = []
+    for j in range(n):
+        same = [b_and(reach[j][k], reach[k][j]) for k in range(n)]
+        fairscc = b_and(plus[j][j], *[b_or(*[b_and(same[k], P[k]) for k in range(n)]) for P in fair])
+        single = b_and(*[b_not(same[k]) for k in range(n) if k != j])
+        out.append(b_and(fairscc, b_or(b_not(T[j][j]), single)))
+    return b_or(*out)
 
 
 # ------------------------------------------------------------------ replay
@@ -324,3 +358,109 @@ def find_lasso(g, s, n, R, L, kmax=None):
             else:
                 smt.close()
     return None
+
+
+# ------------------------------------------------------------------ C15: get_fair_states
+def fair_states_task(n, nfair, perm=None):
+    """Kripke.get_fair_states(F) on all total structures with n states and all lists F of nfair state sets:
+    (i) result is a subset of the fair states (always), (ii) equal to them outside known-finding class D7,
+    (iii) the structure is not modified, no exception."""
+    see.reset()
+    t0 = time.time()
+    fair_names = ['f%d' % k for k in range(nfair)]
+    extra = ['%s_%d' % (fn_, i) for fn_ in fair_names for i in range(n)]
+    start_lemma_log(SEED)
+    from .harness import KRIPKE_MODS
+    h = sym_kripke(n, aps=(), mods=KRIPKE_MODS, fold=True, care_total=True, extra=extra, perm=perm, bounds={})
+    snap = snapshot(h.K)
+    Fl = []
+    for fn_ in fair_names:
+        P = MSet()
+        for i in range(n):
+            P.put(i, var('%s_%d' % (fn_, i)))
+        Fl.append(P)
+    res = h.ctx.call(h.ctx.getattr1(h.K, 'get_fair_states'), [MList(Fl)], {})
+    resv = vec(res, range(n))
+    excg, unw, mut = exc_guard(h.fr), unwind_guard(h.vm), mutated(h.K, snap)
+    encoded = sorted(h.vm.encoded)
+    kinds = exc_kinds(h.fr)
+    t1 = time.time()
+    dp0 = oracles.Depths('stable')
+    oracles.fair_states(matrix(n), n, [[var('%s_%d' % (fn_, i)) for i in range(n)] for fn_ in fair_names], dp0)
+    d = Decider(total_text(n))
+    T2 = matrix(n)
+    fair2 = [[var('%s_%d' % (fn_, i)) for i in range(n)] for fn_ in fair_names]
+    dp = oracles.Depths('fixed', inner=dp0.max_inner, outer=dp0.max_outer)
+    want = oracles.fair_states(T2, n, fair2, dp)
+    rec = dict(kind='get_fair_states', n=n, nfair=nfair, encode_s=round(t1 - t0, 2), exc=kinds, encoded=encoded)
+    sound_bad = [b_and(a, b_not(w)) for a, w in zip(resv, want)]
+    rec['sound'] = d.violated(*(sound_bad + [excg, unw, dp.unstable] + mut))
+    if rec['sound'] == 'sat':
+        rec['model'] = d.model_of(['(or false %s)' % ' '.join(d.term(b) for b in sound_bad + [excg, unw] + mut)])
+    rec['all_inputs_exact'] = d.differ(resv, want)                      # expected sat while D7 is open
+    if rec['all_inputs_exact'] == 'sat':
+        rec['d7_model'] = d.differ_model(resv, want)
+    d.assume(b_not(d7_class(T2, fair2, n)))
+    rec['verdict'] = d.differ(resv, want)
+    if rec['verdict'] == 'sat':
+        rec['model'] = d.differ_model(resv, want)
+    rec['twin'] = d.holds(resv[0])
+    rec['audit'] = d.audit(batch=1000)
+    rec.update(d.stats())
+    d.close()
+    return rec
+
+
+FAIR_REPLAY = '''
+sys.path.insert(0, %(root)r)
+from pyModelChecking import Kripke
+from verif import explicit
+n = %(n)d; R = %(R)r; F = %(F)r
+K = Kripke(S=list(range(n)), R=R)
+got = K.get_fair_states([set(P) for P in F])
+want = explicit.E_path(explicit.Struct(n, R, {}), explicit.TRUE_TREE, [set(P) for P in F])
+print('R=%%s F=%%s get_fair_states -> %%s ; states with a fair path -> %%s' %% (R, F, got, want))
+if %(cond)s:
+    print('VIOLATION of C15'); sys.exit(1)
+print('no violation on this input')
+'''
+
+
+def fair_replay(rec, model, cond='got != want'):
+    from .common import ROOT
+    n = rec['n']
+    R = [(i, j) for i in range(n) for j in range(n) if model.get('t_%d_%d' % (i, j))]
+    F = [[i for i in range(n) if model.get('f%d_%d' % (k, i))] for k in range(rec['nfair'])]
+    path = write_replay('C15', FAIR_REPLAY % dict(root=ROOT, n=n, R=R, F=F, cond=cond))
+    ok, out = run_replay(path)
+    return (path if ok else None), out
+
+
+MCF_REPLAY = '''
+sys.path.insert(0, %(root)r)
+from pyModelChecking import Kripke, CTL, LTL, CTLS
+from verif import explicit
+logic, ftxt = %(logic)r, %(ftxt)r
+n = %(n)d; R = %(R)r; L = %(L)r; F = %(F)r
+K = Kripke(S=list(range(n)), R=R, L={k: set(v) for k, v in L.items()})
+mod = {'CTL': CTL, 'LTL': LTL, 'CTLS': CTLS}[logic]
+want = explicit.sat_states(explicit.Struct(n, R, L), CTLS.Parser()(ftxt), [set(P) for P in F])
+try:
+    got = mod.modelcheck(K, ftxt, F=[set(P) for P in F])
+except Exception as e:
+    got = 'raised %%s: %%s' %% (type(e).__name__, e)
+print('K: R=%%s L=%%s F=%%s' %% (R, L, F)); print('formula:', ftxt); print('modelcheck ->', got); print('fair semantics ->', want)
+if got != want:
+    print('VIOLATION of C15'); sys.exit(1)
+print('no violation on this input')
+'''
+
+
+def mcf_replay(rec, model):
+    from .common import ROOT
+    n = rec['n']
+    R, L = model_to_structure(model, n, ('p', 'q'), rec.get('fixed'))
+    F = [[i for i in range(n) if model.get('f%d_%d' % (k, i))] for k in range(rec.get('nfair', 1))]
+    path = write_replay('C15', MCF_REPLAY % dict(root=ROOT, logic=rec['logic'], ftxt=rec['formula'], n=n, R=R, L=L, F=F))
+    ok, out = run_replay(path)
+    return (path if ok else None), out
